@@ -73,7 +73,7 @@ def run(tier, work):
         forbidden = others - must - object_names - kernel_names
         text = "r = %s\nr.\n" % lit
         jobs.append({"files": {"t.rb": text}, "args": ["t.rb", "--suggest", "--row=2"]})
-        meta.append(("configured-instance:" + cls, must, forbidden, object_names))
+        meta.append(("configured-instance:" + cls, must, forbidden, object_names, frozenset()))
     # (b) TLC-generated user hierarchies
     graphs = rng.sample(K.emit(work, stats), 150 if tier == "quick" else 3000)
     user_names = {"foo", "bar", "baz", "mix"}
@@ -90,20 +90,21 @@ def run(tier, work):
                               if any(d["name"] == n for d in g["defs"])
                               and all(d["owner"] not in related(g, gr["shape"], c) for d in g["defs"] if d["name"] == n)}
             must_i = {n for n in user_names if q["inst"][n]["k"] == "ok"}
+            attrs_i = frozenset(n for n in user_names if q["inst"][n].get("attr"))
             text = "\n".join(dl + ["o = %s.new%s" % (K.path_of(c, K.PLAIN, pl), "(1)" if ar == 1 else ""), "o."]) + "\n"
             jobs.append({"files": {"t.rb": text}, "args": ["t.rb", "--suggest", "--row=%d" % (len(dl) + 2)]})
-            meta.append(("user-instance" + kind_sfx, must_i, unrelated_only, object_names))
+            meta.append(("user-instance" + kind_sfx, must_i, unrelated_only, object_names, attrs_i))
             must_s = {n for n in ("foo", "mix") if q["static"][n]["k"] == "ok"}
             text = "\n".join(dl + ["%s." % K.path_of(c, K.PLAIN, pl)]) + "\n"
             jobs.append({"files": {"t.rb": text}, "args": ["t.rb", "--suggest", "--row=%d" % (len(dl) + 1)]})
-            meta.append(("user-class" + kind_sfx, must_s, unrelated_only, set()))
+            meta.append(("user-class" + kind_sfx, must_s, unrelated_only, set(), frozenset()))
     wr = C.Runner(work, "worker")
     try:
         results = wr.run_many(jobs)
     finally:
         wr.close()
     checked = 0
-    for (kind, must, forbidden, also), job, res in zip(meta, jobs, results):
+    for (kind, must, forbidden, also, attrs), job, res in zip(meta, jobs, results):
         if res.hung or res.crashed or res.get("exit") != 0:
             key = "%s:crash-or-hang:%s@%s" % (kind.split(":")[0], res.get("cls"), res.get("site"))
             if not v.seen(key):
@@ -112,13 +113,13 @@ def run(tier, work):
                 v.again(key)
             continue
         stats["runs"] += 1
-        for key, what in judge(kind, must, forbidden, also, res["out"]):
+        for key, what in judge(kind, must, forbidden, also, res["out"], attrs):
             checked += 1
             if v.seen(key):
                 v.again(key)
                 continue
             rr = C.confirm_alone(work, job, runs=1)[0]
-            if not any(k == key for k, _ in judge(kind, must, forbidden, also, rr.get("out") or "")):
+            if not any(k == key for k, _ in judge(kind, must, forbidden, also, rr.get("out") or "", attrs)):
                 v.count("not_reproduced_blackbox")
                 continue
             v.fail(key, "%s: %s; program ends %r" % (kind, what, job["files"]["t.rb"][-60:]), C.job_files_for_replay(job),
@@ -147,13 +148,15 @@ def related(g, shape, c):
     return rel
 
 
-def judge(kind, must, forbidden, also, out):
+def judge(kind, must, forbidden, also, out, attrs=frozenset()):
     names = set(suggestions(out))
     bad = []
     group = kind.split(":")[0]
     missing = sorted((must | also) - names)
     if missing:
         src = "object-or-kernel" if not (must - names) else "own-or-inherited"
+        if (must - names) and (must - names) <= attrs:
+            src = "attribute-accessor"
         if src == "object-or-kernel":
             group = group.replace("-placed", "")      # one deviation, whatever the namespace
         bad.append(("%s:missing:%s" % (kind if group.startswith("configured") else group, src),
